@@ -676,3 +676,69 @@ def safe_position_of_dotted_prefix_is_zero(module: Node, other: Node) -> bool:
 
 def unsafe_dotted_name_found_anywhere(module: Node, other: Node) -> bool:
     return (module + ".").find(other + ".") != -1
+
+
+def safe_three_way_decision(module: Node, other: Node) -> str:
+    if not module.startswith(other):
+        return "external"
+    if module[len(other):][:1] in ("", "."):
+        return "internal"
+    return "sibling"
+
+
+def _helper_is_or_is_below(name: str, parent: str) -> bool:
+    return name == parent or name.startswith(parent + ".")
+
+
+def safe_relation_by_helper(module: Node, listed: list[Node]) -> str:
+    ancestor = next((c for c in listed if _helper_is_or_is_below(module, c)), None)
+    if ancestor is None:
+        return module
+    return "x" + module[len(ancestor):]
+
+
+def notsafe_relation_helper_with_swapped_arguments(module: Node, listed: list[Node]) -> str:
+    ancestor = next((c for c in listed if _helper_is_or_is_below(c, module)), None)
+    if ancestor is None:
+        return module
+    return "x" + module[len(ancestor):]
+
+
+def notsafe_evidence_about_another_string(module: Node, other: Node, third: Node) -> str:
+    if module.startswith(other) and module[len(third):][:1] in ("", "."):
+        return "x" + module[len(other):]
+    return module
+
+
+def unsafe_parent_by_wrong_separator(module: Node) -> str:
+    parent = module.rpartition("_")[0]
+    return module.removeprefix(parent)
+
+
+def safe_remainder_below_generated_ancestor(module: Node, aliases: dict[Node, str]) -> str:
+    for ancestor in _helper_ancestors_bottom_up(module):
+        if ancestor in aliases:
+            return aliases[ancestor] + module.removeprefix(ancestor)
+    return module
+
+
+def _helper_ancestors_bottom_up(module: Node):
+    remaining, separator, _ = module.rpartition(".")
+    while separator:
+        yield remaining
+        remaining, separator, _ = remaining.rpartition(".")
+
+
+def safe_components_compared_with_zip_longest(module: Node, other: Node) -> bool:
+    from itertools import zip_longest
+
+    return all(theirs is None or mine == theirs for mine, theirs in zip_longest(module.split("."), other.split(".")))
+
+
+def safe_walk_with_max(module: Node) -> list[str]:
+    parents = []
+    parent = module
+    while parent:
+        parent = parent[: max(parent.rfind("."), 0)]
+        parents.append(parent)
+    return parents
